@@ -42,18 +42,21 @@ int main(int argc, char** argv) {
     g.finish(); ref::LR1 lr = ref::build_lr1(g, ref::analyse(g), false);
     if (!lr.conflict_free()) { std::printf("{\"harness_error\": \"reference grammar has conflicts\"}\n"); return 2; }
     const char* names[] = {"if", "ident", "r_[0-9]+", "+", ";", "\\x01", "<eof>"};
-    std::vector<std::string> inputs{""}; const char al[] = {'i', 'f', 'a', '7', '+', ';', '\x01', ' ', '\n', '?'};
+    std::vector<std::string> inputs{""}; const char al[] = {'i', 'f', 'a', '7', '+', ';', '\x01', ' ', '\n', '?', '\t'};
     for (size_t lo = 0, l = 0; l < (size_t)n; ++l) { size_t hi = inputs.size(); for (size_t i = lo; i < hi; ++i) for (char c : al) inputs.push_back(inputs[i] + c); lo = hi; }
     for (const char* x : {"if a;7+7;\x01;", "if if;", "if a;\n7+;", "77+7;\n\n  ifa a;", "if a; 7 + 77 ;\n\x01 ; ?"}) inputs.push_back(x);
     long cases = 0, checks = 0, fails = 0, accepted = 0, lexerr = 0, synerr = 0; std::string first;
-    for (const std::string& in : inputs) {
+    for (int opt = 0; opt < 3; ++opt) for (const std::string& in : inputs) {
+        // option combinations: default; skip_newline off (newline is then an unexpected character, tab and space are still skipped); skip_whitespace off
+        const bool skip_ws = opt != 2, skip_nl = opt != 1;
+        if (opt && in.size() > (size_t)(n > 3 ? n - 1 : n)) continue;
         ++cases;
         // reference tokenizer
         std::vector<ref::Tok> toks; std::vector<std::pair<int, int>> pos; bool lexfail = false; std::pair<int, int> failpos{0, 0}; char failbyte = 0;
         size_t i = 0; int line = 1, col = 1;
         auto adv = [&](size_t to) { for (; i < to; ++i) { if (in[i] == '\n') { ++line; col = 1; } else ++col; } };
         while (true) {
-            size_t q = i; while (q < in.size() && (in[q] == ' ' || in[q] == '\n')) ++q; adv(q);
+            size_t q = i; while (skip_ws && q < in.size() && (in[q] == ' ' || in[q] == '\t' || (in[q] == '\n' && skip_nl))) ++q; adv(q);
             if (i >= in.size()) break;
             char c = in[i]; int term = -1; size_t len = 0;
             if (c >= 'a' && c <= 'z') { size_t e = i; while (e < in.size() && in[e] >= 'a' && in[e] <= 'z') ++e; len = e - i; term = (len == 2 && in[i] == 'i' && in[i + 1] == 'f') ? 0 : 1; }
@@ -67,9 +70,9 @@ int main(int argc, char** argv) {
         std::string want;
         for (size_t k = 0; k < run.err_tok.size(); ++k) { int ti = run.err_tok[k]; auto pp = ti < (int)pos.size() ? pos[ti] : eofpos; want += "[" + std::to_string(pp.first) + ":" + std::to_string(pp.second) + "] PARSE: Syntax error: Unexpected '" + names[run.err_term[k]] + "'\n"; }
         if (run.lex_error) want += "[" + std::to_string(failpos.first) + ":" + std::to_string(failpos.second) + "] PARSE: Unexpected character: " + std::string(1, failbyte) + "\n";
-        std::ostringstream es; auto r = p.parse(string_buffer(std::string(in)), es);
+        std::ostringstream es; auto r = p.parse(parse_options{}.set_skip_whitespace(skip_ws).set_skip_newline(skip_nl), string_buffer(std::string(in)), es);
         (run.ok ? accepted : run.lex_error ? lexerr : synerr)++;
-        auto fail = [&](const std::string& w) { ++fails; if (first.empty()) { std::string v; for (unsigned char c : in) { if (c >= 0x20 && c < 0x7f && c != '\\' && c != '"') v += char(c); else { char b[8]; std::snprintf(b, sizeof b, "<%02x>", c); v += b; } } first = "input '" + v + "': " + w; } };
+        auto fail = [&](const std::string& w) { ++fails; if (first.empty()) { std::string v; for (unsigned char c : in) { if (c >= 0x20 && c < 0x7f && c != '\\' && c != '"') v += char(c); else { char b[8]; std::snprintf(b, sizeof b, "<%02x>", c); v += b; } } first = std::string(opt == 0 ? "" : opt == 1 ? "[skip_newline off] " : "[skip_whitespace off] ") + "input '" + v + "': " + w; } };
         ++checks; if (r.has_value() != run.ok) { fail(std::string("parse ") + (r ? "succeeded" : "failed") + ", expected the opposite; stream: " + es.str()); continue; }
         ++checks; if (es.str() != want) fail("stream '" + es.str() + "' expected '" + want + "'");
     }
